@@ -166,12 +166,49 @@ def run(tier, regenerate=True):
             else:
                 chk.replays_bad += 1
                 chk.inconclusive.append("not reproduced natively: %s :: %s" % (desc, json.dumps(nat)[:300]))
+    # ---- storage level: sos_backend::compact_folder on a file-system folder log (real apply, real event_stream,
+    #      temporary log, replace_all_events over the vfs model)
+    from . import c12_compact as CF
+    cprog = H.load_program(CF.CRATES, regenerate=regenerate)
+    chk.extra["mir_regeneration_s"].update(cprog.timings)
+    csh = shapes(max_n if tier == "quick" else 2, with_meta_options=(True,))
+    if only:
+        csh = [x for x in csh if ".".join(x[1]) == only]
+    chk.bounds["compact_folder"] = {"backend": "file system (vfs model)", "events_after_create": max_n if tier == "quick" else 2, "shapes": len(csh)}
+    cres = par.map_entries(lambda x: CF.run_shape(cprog, x), csh)
+    for out in cres:
+        if isinstance(out, Exception) or out is None:
+            chk.inconclusive.append("worker failed: %r" % (out,))
+            continue
+        chk.states += out["states"]
+        chk.transitions += out["queries"]
+        chk.solver_s += out["solver_s"]
+        chk.obligations += out["obligations"]
+        chk.discharged += out["discharged"]
+        chk.inconclusive.extend(out["inconclusive"])
+        chk.stubs.update(out["stubs"])
+        for kk, n in out["gaps"].items():
+            chk.gaps[kk] = chk.gaps.get(kk, 0) + n
+        for kk, n in out.get("blocks", {}).items():
+            blocks[kk] = max(blocks.get(kk, 0), n)
+        for key, desc, case in out["reports"]:
+            if rep is None:
+                rep = Replayer("dev")
+                rep.build()
+            nat = rep.run(case)
+            if confirmed_cf(case, nat):
+                chk.replays_ok += 1
+                chk.report(key, desc + "; native: " + json.dumps(nat)[:300], case)
+            else:
+                chk.replays_bad += 1
+                chk.inconclusive.append("not reproduced natively: %s :: %s" % (desc, json.dumps(nat)[:300]))
     if rep is not None:
         rep.close()
     chk.functions = {kk: {"mir_blocks_executed": v} for kk, v in sorted(blocks.items())}
     chk.assumptions = [
-        "reducer / compaction kernel only: replace_all_events I/O, password and cipher changes through LocalAccount and "
-        "both storage backends are outside this check",
+        "reducer / compaction kernel, and sos_backend::compact_folder on the file-system backend over the vfs model (the log is "
+        "written by the real apply, read back by the real event_stream; SHA-256 ideal); the database branch of compact_folder, "
+        "password and cipher changes through LocalAccount are outside",
         "the event log is a harness-provided stream of (record, event) pairs; encryption is opaque (blobs are bytes)",
         "logs of at most %d events after CreateVault over a pool of two secret ids" % max_n,
     ]
@@ -195,8 +232,35 @@ def confirmed(case, nat):
     return False
 
 
+def confirmed_cf(case, nat):
+    if nat.get("outcome") != "ok":
+        return False
+    what = case["what"]
+    if "fails" in what:
+        return "Err" in (nat.get("result") or {})
+    if "re-opened" in what:
+        return "Err" in (nat.get("reopen") or {})
+    if what.startswith("tree in memory"):
+        return nat.get("tree_matches_file") is False
+    for f in ("name", "flags", "meta", "secrets"):
+        if what.startswith(f + " of the folder"):
+            return nat[f + "_before"] != nat[f + "_after"]
+    if "compacted log holds" in what:
+        return nat["records_after"] != 1 + nat["live"]
+    return False
+
+
 def replay(path):
     case = json.load(open(path))
+    if case.get("op") == "compact_folder":
+        rep = Replayer("dev")
+        nat = rep.run(case)
+        rep.close()
+        print(json.dumps(nat)[:600])
+        if confirmed_cf(case, nat):
+            print("VIOLATION property=%s replay=%s" % (PROP, path))
+            return 1
+        return 0
     rep = Replayer("dev")
     nat = rep.run(case)
     rep.close()
